@@ -117,6 +117,15 @@ pub fn gen_case(t: &mut Tape) -> Case {
                 cs = true;
             }
         }
+        // a function that uses its relation parameter twice, applied to a plain table / a literal
+        4 => {
+            // (`rel | append rel` is left out: on the unchanged tree its Select already uses ids of the
+            // first instance that are not visible; observed, DESIGN 10.4)
+            let body = *t.pick(&["(rel | join side:left rel (==id))", "(rel | join zr2 = rel (rel.id == zr2.id) | select {rel.id, zr2.a})", "(rel | join side:inner rel (==a) | filter id > 0)"]);
+            let arg = *t.pick(&["from t2", "from t3", "from [{id = 1, a = 2}, {id = 3, a = 4}]"]);
+            let use_ = if body.contains("append") && t.chance(1, 2) { " | select {zf.id}" } else { "" };
+            src = format!("let zsj = rel -> {body}\n{src}{sep}join side:left zf = ({arg} | zsj) (true){use_}");
+        }
         _ => {}
     }
     src.push('\n');
